@@ -186,6 +186,8 @@ pub struct Cfg {
     pub libm_pow: fn(u32) -> Option<(u32, u64)>,
     pub shapes32: ShapeFn,
     pub shapes64: ShapeFn,
+    pub parse_sep32: fn(&[u8], &[u8], i32) -> u64,
+    pub parse_sep64: fn(&[u8], &[u8], i32) -> u64,
 }
 
 impl Cfg {
